@@ -31,6 +31,13 @@ def run(chk):
     report_rejects(chk, r, sig,
                    lambda ev, d: "observations of a frame change when %d bytes follow it" % len(ev["sfx"]),
                    tool_error_if=lambda ev, d: d.get("pre") is False)
+    t2 = record("sfx", chk.path("sfx-relchk.ndjson"), profile="relchk", n=1000 if q else 10000, seed=chk.seed + 13)
+    hang_violation(chk, t2, "MessageFrame::new / get_message [overflow-checks]")
+    r2 = tv("Trace_Frame", "Trace_Frame.cfg", t2, shards=10, tag="C13-relchk")
+    chk.add_tv("sfx[relchk]", r2)
+    report_rejects(chk, r2, lambda ev, d: "[overflow-checks] " + sig(ev, d),
+                   lambda ev, d: "[overflow-checks] observations of a frame change when %d bytes follow it / panic" % len(ev.get("sfx", [])),
+                   tool_error_if=lambda ev, d: d.get("pre") is False)
     nontriv = set()
     short = 0
     for ln, o in r["lines"]:
